@@ -1,6 +1,6 @@
 (* C18 - ERG is minted only against valid sequential work, within the reward formula.
    Pinned statements only; proofs in STF/Proofs/Dosc.v and STF/Proofs/Stakes.v. *)
-From MelVerif Require Import STF.Model STF.Proofs.Dosc STF.Proofs.Stakes STF.Proofs.Frame.
+From MelVerif Require Import STF.Model STF.Proofs.Dosc STF.Proofs.Stakes STF.Proofs.Frame STF.Proofs.SealCounts STF.Proofs.History STF.Proofs.MiscHistory.
 Open Scope N_scope.
 
 Theorem C18_mint_validated : forall SO s relevant t speed,
@@ -52,3 +52,9 @@ Print Assumptions C18_speed_monotone_batch.
 Theorem C18_speed_kept_by_seal : forall SO s a s', seal SO s a = Ok s' -> s_dosc_speed s' = s_dosc_speed s.
 Proof. exact seal_speed. Qed.
 Print Assumptions C18_speed_kept_by_seal.
+
+(* over whole histories ([hstep]: Properties/C20.v): the recorded speed - the denominator of every later reward -
+   never decreases, whatever batches are applied or refused and whatever blocks are sealed *)
+Theorem C18_speed_never_decreases : forall SO ops s, s_dosc_speed s <= s_dosc_speed (fold_left (hstep SO) ops s).
+Proof. exact speed_never_decreases. Qed.
+Print Assumptions C18_speed_never_decreases.
